@@ -280,3 +280,18 @@ def run_case(case):
         if case["kind"] == "import":
             return _import_check(case["rows"], case["version"], case["pixel"], case["names"], rng, case["via_file"], tmp, case.get("variant", 0), case.get("per_tomo_numbers", False))
         return _roundtrip_check(case["rows"], case["version"], case["pixel"], case["binning"], case["tf"], case["sf"], case["via_file"], case["optics"], tmp)
+
+
+def replay_kind(kind, n=60):
+    """search generated cases of one kind (export / import / roundtrip) for a native failure"""
+    k = 0
+    for key, case in gen_cases(4, 600):
+        if case["kind"] != kind:
+            continue
+        k += 1
+        r = run_case(case)
+        if r is not None:
+            return {"reproduced": True, "input": {"kind": kind, "case": [str(x) for x in key]}, "observed": r}
+        if k >= n:
+            break
+    return {"reproduced": False, "input": f"{k} generated '{kind}' cases", "observed": None}
